@@ -127,6 +127,14 @@ class DonationAnalysis:
       return out
     for n, x in ff.live_after(node, name):
       out.append((x, name))
+    # reads in the same statement that are evaluated after the donating call (left-to-right; an inlined temporary keeps the
+    # position of its original, earlier statement)
+    if node.ast is not None:
+      inside = {id(y) for y in ast.walk(site.call)}
+      end = (getattr(site.call, 'end_lineno', 0) or 0, getattr(site.call, 'end_col_offset', 0) or 0)
+      for y in node.walk():
+        if isinstance(y, ast.Name) and y.id == name and isinstance(y.ctx, ast.Load) and id(y) not in inside and (y.lineno, y.col_offset) >= end:
+          out.append((y, name))
     # plain copies  y = x  made before the donation, read after it
     donated_defs = ff.defs_for(site.arg)
     for nid, ds in ff.rd.defs_at.items():
